@@ -1042,6 +1042,23 @@ def check_c18(tier, seed):
                       "detail": "%s (built by src/Makefile) has writable static data: %s - the library has mutable global state" % (obj, ", ".join(lst))})
     for l in common[:3]:
         v.new.append({"sig": "C18/writable-static-data/common", "case": "", "label": ship.name, "replay": None, "detail": "common symbol (uninitialised global): " + l})
+    # ... and no object calls a C library function that keeps process-wide state of its own between calls (the cursor of
+    # strtok, the seed of rand, the static result buffers of localtime / strerror / ..., the environment, signal dispositions)
+    NONREENTRANT = set("""strtok rand srand random srandom initstate setstate drand48 erand48 lrand48 nrand48 mrand48 jrand48 srand48 seed48 lcong48
+        localtime gmtime asctime ctime strerror strsignal setlocale setenv putenv unsetenv clearenv signal sigaction sigprocmask tmpnam tempnam mktemp
+        getlogin ttyname getpwnam getpwuid getpwent getgrnam getgrgid getgrent gethostbyname gethostbyaddr getservbyname getservbyport getprotobyname
+        inet_ntoa readdir ecvt fcvt gcvt l64a getopt getopt_long hsearch hcreate hdestroy lgamma lgammaf crypt encrypt setkey nl_langinfo ptsname
+        mblen mbtowc wctomb atexit on_exit umask chdir""".split())
+    undef = {}
+    for line in syms.splitlines():
+        mu = _re.match(r"^[^:]+:([^:]+):\s+U\s+(\S+)$", line)
+        if mu:
+            undef.setdefault(mu.group(2).split("@")[0], set()).add(mu.group(1))
+    if "calloc" not in undef and "free" not in undef:
+        raise EngineError("import audit saw no libc imports at all: %r" % sorted(undef)[:10])
+    for fn in sorted(set(undef) & NONREENTRANT):
+        v.new.append({"sig": "C18/calls-non-reentrant-libc-function/%s" % fn, "case": "", "label": ship.name, "replay": None,
+                      "detail": "%s (built by src/Makefile) calls %s(), which keeps state shared by all threads of the process" % (", ".join(sorted(undef[fn])), fn)})
     # free-running ThreadSanitizer pass over the same operation bodies
     tsan = tsan_pass(st, tier)
     points = sum(val for k, val in merged.notes.items() if k.startswith("scheduling_points_executed"))
@@ -1055,7 +1072,8 @@ def check_c18(tier, seed):
                    "Positive control (harness-owned lost update, needs one preemption) must be found in every run. Free-running ThreadSanitizer pass over the same bodies on real threads." % (3 if tier == "thorough" else 2),
            "samples": merged.samples, "notes": merged.notes, "executions_per_variant": per, "conflict_granules": int(wtot), "scheduling_points": int(points),
            "tsan_pass": tsan, "builds": [lib.describe(), ship.describe()],
-           "section_audit": {"sections_seen": nsec, "objects_with_writable_static_data": sorted(secs), "rule": "objdump -h of every object of libskinny.a as built by src/Makefile: .data*, .bss*, .tdata*, .tbss* must be empty (.data.rel.ro* excepted), no common symbols"}}
+           "section_audit": {"sections_seen": nsec, "objects_with_writable_static_data": sorted(secs), "rule": "objdump -h of every object of libskinny.a as built by src/Makefile: .data*, .bss*, .tdata*, .tbss* must be empty (.data.rel.ro* excepted), no common symbols; nm: no import of a C library function with process-wide state (strtok, rand, localtime, strerror, setenv, signal, ...)",
+                             "libc_imports": sorted(k for k in undef if not k.startswith(("skinny", "_skinny", "mantis", "_mantis")))}}
     if tsan.get("reports", 0) > 0:
         vv = {"sig": "C18/tsan-data-race", "case": "", "detail": tsan.get("first_report", "")[:1500], "label": "tsan", "replay": None}
         v.new.append(vv)
